@@ -403,6 +403,7 @@ def main():
     from . import lifecycle
 
     lifecycle.run(chk)  # advisory family (spec/Lifecycle.tla): initialize() / setup_logging() histories, drift only
+    lifecycle.run_cli(chk)  # advisory family (spec/Cli.tla): `bldfm run [--dry-run] [--plot]` command histories, drift only
     if t == "thorough":
         from . import repo_tests
 
